@@ -113,6 +113,7 @@ func (s *SimLease) ForceExpire(id string) {
 			s.freeAt = time.Now().Add(s.LockDelay)
 		}
 		s.r.Count("fault.lease_force_expire")
+		s.logf(0, "force-expire", id, "")
 	}
 }
 
